@@ -426,20 +426,26 @@ def _explicit_raises(ctx) -> None:
 def _backend_agreement(ctx) -> None:
     """'whenever both back ends accept a string they return the same value': the structural sibling rules of C07
     (table searches, week dates, offsets) and C13 (durations) are the decidable part of this clause."""
-    from . import C07
+    from . import C07, C13
     C07._py_forward(ctx)
     C07._py_backward(ctx)
+    ctx.step(C13._py_duration_tabulate, ctx)      # the Python duration parser yields the exact value (the compiled one: C13's MIR rules)
     try:
         mir = mirfront.load()
         from .. import mirsym
         sf = mirsym.struct_fields_from_source((core.REPO / "rust/src/parsing.rs").read_text())
     except mirfront.MirUnavailable:
+        ctx.step(C07._fraction, ctx, None)
         return
     C07._rs_forward(ctx, mir, sf)
     C07._week(ctx, mir, sf)
-    from . import C13
+    ctx.step(C07._fraction, ctx, mir)       # sub-second digits: cut to six and right-padded, in both parsers
+    ctx.step(C07._offset, ctx, mir, sf)     # UTC offsets: the same value for every offset string, in both parsers
+    ctx.step(C07._offset_starters, ctx, mir)
+    ctx.step(C07._separators, ctx, mir)
     C13._interval_assembly(ctx)  # the compiled Duration's fields are handed to pendulum.duration unit for unit
     C13._rust_arith(ctx)        # 'never a value computed from silently wrapped-around numbers'
+    ctx.step(C13._rust_fraction_radix, ctx)
 
 
 def run(ctx) -> None:
